@@ -125,6 +125,11 @@ def run(tier, seed):
     alph["copycancel"] = alphabet(vols=(1, 2), mvols=(1,), ttls=(None, 1), mttls=(None,), cancels=0, dead=()) + [("CC", 0), ("CC", 1), ("CC", 2)]
     extra += [("empty", mode, 3 if tier == "quick" else 4, "copycancel") for mode in ("cont", "free")]
     extra += [(sd, "free", 2 if tier == "quick" else 3, "copycancel") for sd in ("two_sided_no_trade", "partial", "expiring")]
+    # "directfill": a fill applied to one chosen resting order (not necessarily the best of its side) through the order book's
+    # public change_order_volume
+    alph["directfill"] = alphabet(vols=(1, 2), mvols=(1,), ttls=(None, 1), mttls=(None,), cancels=1, dead=()) + [("DF", i, how) for i in (0, 1, 2) for how in ("all", "one")]
+    extra += [("empty", "free", 3 if tier == "quick" else 4, "directfill")]
+    extra += [(sd, "free", 2 if tier == "quick" else 3, "directfill") for sd in ("deep", "ladder_buy", "ladder_sell", "expiring", "mixed_ttl", "same_expiry")]
     res = run_generic("C04", tier, seed, factory, WIT + ["bad_op_rejected"], RULE, extra_alph=alph, extra_plan=extra)
     from ..enum_f import run_grid
     ev0, dn0 = res.coverage["evaluations"], res.coverage["distinct_nontrivial"]
